@@ -22,7 +22,7 @@ Definition boundaries (rs : list (N * N)) (excluded : list N) : list N :=
 Definition memN (x : N) (l : list N) : bool := existsb (N.eqb x) l.
 
 Definition reps (rs : list (N * N)) (excluded : list N) : list N :=
-  filter (fun c => negb (memN c excluded)) (boundaries rs excluded).
+  nodup N.eq_dec (filter (fun c => negb (memN c excluded)) (boundaries rs excluded)).
 
 (* a state: left context, and the two regexes *)
 Definition state := (bool * re * re)%type.
@@ -61,6 +61,18 @@ Inductive verdict :=
 | Differs (at_start : bool) (w : list N)     (* distinguishing string (reversed path) *)
 | OutOfFuel.
 
+(* successor states of st that are new (not in V, not repeated) with their witness paths *)
+Fixpoint new_successors (rp : list N) (s : bool) (a b : re) (st0 : bool) (path : list N)
+         (V : list state) (acc : list (state * (bool * list N))) : list (state * (bool * list N)) :=
+  match rp with
+  | [] => acc
+  | c :: rp' =>
+    let st' := (false, nderiv c a s, nderiv c b s) in
+    if mem_state st' V || existsb (fun x => state_eqb st' (fst x)) acc
+    then new_successors rp' s a b st0 path V acc
+    else new_successors rp' s a b st0 path V ((st', (st0, c :: path)) :: acc)
+  end.
+
 Fixpoint explore (P : bool -> bool -> bool) (rp : list N) (fuel : nat)
          (todo : list (state * (bool * list N))) (V : list state) : verdict :=
   match fuel with
@@ -73,8 +85,7 @@ Fixpoint explore (P : bool -> bool -> bool) (rp : list N) (fuel : nat)
       else if negb (accept_ok P st) then Differs st0 (rv path)
       else
         let '(s, a, b) := st in
-        let next := map (fun c => ((false, nderiv c a s, nderiv c b s), (st0, c :: path))) rp in
-        explore P rp f (todo' ++ next) (st :: V)
+        explore P rp f (new_successors rp s a b st0 path (st :: V) [] ++ todo') (st :: V)
     end
   end.
 
